@@ -28,14 +28,16 @@ class Editor:
     @contextlib.contextmanager
     def edit_file(self, path: os.PathLike) -> Iterator[models.File]:
         p = pathlib.Path(path)
-        text = p.read_text()
+        with p.open(newline='') as f:
+            text = f.read()
         file = self._parser.parse(text, models.File)
 
         yield file
 
         updated_text = printer.print_model(file, io.StringIO()).getvalue()
         if updated_text != text:
-            p.write_text(updated_text)
+            with p.open('w', newline='') as f:
+                f.write(updated_text)
 
     @contextlib.contextmanager
     def edit_file_recursive(self, path: os.PathLike) -> Iterator[dict[str, models.File]]:
@@ -47,7 +49,7 @@ class Editor:
             current_path = queue.popleft()
             if current_path in texts:
                 continue
-            with open(current_path) as f:
+            with open(current_path, newline='') as f:
                 texts[current_path] = f.read()
             files[current_path] = self._parser.parse(texts[current_path], models.File)
             queue.extend(_get_include_paths(current_path, files[current_path]))
@@ -61,5 +63,5 @@ class Editor:
                 os.makedirs(dirname, exist_ok=True)
             updated_text = printer.print_model(file, io.StringIO()).getvalue()
             if updated_text != texts.get(current_path):
-                with open(current_path, 'w') as f:
+                with open(current_path, 'w', newline='') as f:
                     f.write(updated_text)
